@@ -84,6 +84,14 @@ pub fn push_message(s: &mut Stream, tape: &mut Tape, r: &mut Rng, mtype: u8, seq
             };
             let mut b = vec![0u8; n];
             r.fill(&mut b);
+            // a few halfwords take boundary values (sign bit only, all ones, ...)
+            if n >= 120 && tape.draw(3) == 2 {
+                for _ in 0..(1 + tape.draw(3)) {
+                    let o = 2 * tape.draw(60) as usize;
+                    let v = [0x8000u16, 0xFFFF, 0x7FFF, 0, 1][tape.draw(5) as usize];
+                    b[o..o + 2].copy_from_slice(&v.to_be_bytes());
+                }
+            }
             (b, None)
         }
     };
@@ -93,6 +101,51 @@ pub fn push_message(s: &mut Stream, tape: &mut Tape, r: &mut Rng, mtype: u8, seq
     let time_ms = u32::from_be_bytes([bytes[20], bytes[21], bytes[22], bytes[23]]);
     s.bytes.extend_from_slice(&bytes);
     s.msgs.push(MsgRef { off, len: FRAME, mtype, seq, date, time_ms, t31: None, vcp_cuts: cuts });
+}
+
+/// Appends one type-31 message sized so that the total becomes a multiple of 2432 bytes, then
+/// (optionally) opaque frames until the stream is exactly `frames` frames long.
+pub fn pad_to_frame_multiple(s: &mut Stream, tape: &mut Tape, frames: Option<usize>) {
+    let mut r = tape.fork();
+    let len = s.bytes.len();
+    let mut d = (FRAME - len % FRAME) % FRAME;
+    // smallest message with one 8-bit moment block: 28 + 32 + 4 + 28 = 92 bytes
+    while d < 92 {
+        d += FRAME;
+    }
+    let gates = (d - 92) as u16;
+    let spec = T31Spec {
+        blocks: vec![icd::BlockKind::Moment { name: "REF", gates, word_bits: 8 }],
+        pointer_order: vec![0],
+        gaps: vec![0],
+        seq: 40_000,
+        elevation_number: 3,
+        azimuth_number: 5,
+        radial_status: 1,
+        vcp: 212,
+        odd_codes: false,
+    };
+    let (bytes, rf) = spec.encode(&mut r);
+    let off = s.bytes.len();
+    let date = u16::from_be_bytes([bytes[18], bytes[19]]);
+    let time_ms = u32::from_be_bytes([bytes[20], bytes[21], bytes[22], bytes[23]]);
+    s.bytes.extend_from_slice(&bytes);
+    s.msgs.push(MsgRef { off, len: bytes.len(), mtype: 31, seq: 40_000, date, time_ms, t31: Some(rf), vcp_cuts: None });
+    if let Some(f) = frames {
+        let mut k = 0u16;
+        while s.bytes.len() / FRAME < f {
+            let off = s.bytes.len();
+            let mut body = vec![0u8; FRAME_BODY];
+            r.fill(&mut body);
+            let seq = 41_000 + k;
+            let bytes = icd::frame(&mut r, [2u8, 3, 13, 15, 18][k as usize % 5], seq, &body);
+            let date = u16::from_be_bytes([bytes[18], bytes[19]]);
+            let time_ms = u32::from_be_bytes([bytes[20], bytes[21], bytes[22], bytes[23]]);
+            s.bytes.extend_from_slice(&bytes);
+            s.msgs.push(MsgRef { off, len: FRAME, mtype: [2u8, 3, 13, 15, 18][k as usize % 5], seq, date, time_ms, t31: None, vcp_cuts: None });
+            k += 1;
+        }
+    }
 }
 
 pub fn draw_type(tape: &mut Tape, t31_percent: u64) -> u8 {
@@ -125,7 +178,12 @@ pub fn build_stream(tape: &mut Tape, opts: &StreamOpts) -> Stream {
     .min(opts.max_msgs);
     let mut r = tape.fork();
     let mut s = Stream::default();
-    let seq0 = tape.draw(60000) as u16;
+    // sequence numbers run through the 16-bit range, including the 0x7FFF -> 0 and 0xFFFF wraps
+    let seq0 = match tape.weighted(&[6, 1, 1]) {
+        0 => tape.draw(60000) as u16,
+        1 => 0xFFFFu16.wrapping_sub(tape.draw(4) as u16),
+        _ => 0x7FFFu16.wrapping_sub(tape.draw(4) as u16),
+    };
     let mut i = 0;
     while i < n {
         let mtype = draw_type(tape, opts.t31_percent);
